@@ -48,7 +48,38 @@ def op_toks(o):
     return list(o)
 
 
+def gen_profile_sweep(rng, i):
+    """one thread, a populated manager, then one call of every kind: the lock profile of each call is observed"""
+    fam = (i // 3) % 5
+    pool = [(1, 1, 1), (2, 1, 2), (3, 2, 3), (4, 2, 5), (5, 1, 1), (6, 3, 7)]
+    setup = [("L", fam, [0, 1, 2, 5])]
+    if fam != 4 and rng.chance(0.5):
+        setup.append(("R", fam, 1, [0, 4]))
+    kinds = [("G", fam), ("L", fam, [1, 2]), ("P", fam, 4), ("C", fam), ("B", 1)] if fam == 4 else \
+            [("G", fam), ("Q", fam, 1), ("L", fam, [1, 2]), ("R", fam, 1, [0]), ("R", fam, 2, []), ("P", fam, 4),
+             ("P", fam, 3), ("K", fam, 1), ("C", fam), ("B", 1), ("B", 2)]
+    k = (i * 7 + rng.randrange(len(kinds))) % len(kinds)
+    prog = [kinds[k], kinds[(k + 1) % len(kinds)]]
+    return {"pool": pool, "setup": setup, "progs": [prog], "steps": []}
+
+
+def gen_pair_sweep(rng, i):
+    """two calls of one family on one resource; the second runs to its end while the first is parked at its k-th lock"""
+    fam = rng.pick([0, 1, 2, 3])
+    pool = [(1, 1, 1), (2, 1, 2), (3, 1, 3), (4, 2, 4)]
+    setup = [("L", fam, [0, 3])] if rng.chance(0.7) else []
+    first = rng.pick([("P", fam, 1), ("P", fam, 2), ("R", fam, 1, [1, 2]), ("L", fam, [0, 1, 3]), ("R", fam, 1, [])])
+    second = rng.pick([("K", fam, 1), ("C", fam), ("R", fam, 1, []), ("P", fam, 2), ("L", fam, [3]), ("G", fam), ("B", 1)])
+    k = i % 9
+    steps = [0] * k + [1] * 12 + [0] * 12
+    return {"pool": pool, "setup": setup, "progs": [[first], [second]], "steps": steps}
+
+
 def gen_case(rng, i):
+    if i % 5 == 1:
+        return gen_profile_sweep(rng, i)
+    if i % 5 == 3:
+        return gen_pair_sweep(rng, i)
     pool = gen_pool(rng)
     setup = [gen_op(rng, pool, entries=False) for _ in range(rng.pick([0, 1, 2, 4]))]
     if i % 3 == 0:
@@ -99,7 +130,9 @@ class C15(PropBase):
             "clear-for-resource, get, get-for-resource over flow / hotspot / breaker / isolation / system managers (60% within "
             "one family) and inbound entry build+exit with an argument - under a forced interleaving of the scheduling "
             "points placed before every lock acquisition (0-40 steps: round robin, random, runs; a thread that does not come "
-            "back within 150 ms counts as blocked and is left alone); verdict: all threads finished / all unfinished threads "
+            "back within 150 ms counts as blocked and is left alone); a fifth of the cases sweep every kind of call on a populated "
+            "manager with one thread (profile), another fifth park one call at its k-th lock while a second call of the same "
+            "family and resource runs to its end; verdict: all threads finished / all unfinished threads "
             "blocked for 1.5 s (deadlock); panics per thread; afterwards every manager must answer get, accept a load and a "
             "clear, and an entry must build; non-trivial = two threads or a non-empty lock profile; distinct = distinct case text")
     assumptions = ["reader/writer locks are treated as exclusive in the lock-order theorem (sound for deadlock freedom)",
